@@ -83,7 +83,9 @@ func jsonDeepEq(a, b interface{}) bool {
 // vfLeaf: a number is a number, whichever of Go's JSON number representations carries it.
 func vfLeaf(v interface{}) interface{} {
 	if n, ok := v.(json.Number); ok {
-		if f, err := strconv.ParseFloat(string(n), 64); err == nil {
+		// ... as long as it is the same number: a decimal text that float64 cannot hold
+		// exactly (beyond 2^53) is not the float64 next to it
+		if f, err := strconv.ParseFloat(string(n), 64); err == nil && strconv.FormatFloat(f, 'f', -1, 64) == string(n) {
 			return f
 		}
 	}
